@@ -29,6 +29,32 @@ def load_known():
         return json.load(f)
 
 
+def body_hash(b):
+    """hash of a function's MIR without source positions: equal iff the function compiled to the same code"""
+    import hashlib
+
+    def strip(x):
+        if isinstance(x, dict):
+            return {k: strip(v) for k, v in x.items() if k != "span"}
+        if isinstance(x, list):
+            return [strip(v) for v in x]
+        return x
+    return hashlib.sha1(json.dumps(strip({"l": [l.get("ty") for l in b["locals"]], "b": b["blocks"]}), sort_keys=True).encode()).hexdigest()[:16]
+
+
+def changed_functions(raw, known=None):
+    """paths of bodies (functions, closures, coroutines) whose MIR differs from the reference tree, or that are new"""
+    known = known if known is not None else load_known()
+    if not known or "hashes" not in known:
+        return set()
+    hs = known["hashes"]
+    out = set()
+    for p, b in raw["bodies"].items():
+        if p not in hs or body_hash(b) not in hs[p]:
+            out.add(p)
+    return out
+
+
 def shapes_of(raw):
     adts = {}
     for path, a in raw["adts"].items():
